@@ -2303,6 +2303,19 @@ PACKAGE_DEFAULTS = {}      # callable name -> parameter -> set of constant defau
 EXTERNAL_SIGNATURES = {'wait': [['timeout']], 'join': [['timeout']], 'sleep': [['seconds']]}
 
 
+def _reference_params(name):
+  """Parameter names of every reference function called `name`."""
+  key = ('refparams', name)
+  if key not in _cache:
+    out = set()
+    for q, b in (load_baseline().get('functions') or {}).items():
+      qn = q.split('::')[-1]
+      if qn == name or qn.endswith('.' + name) or qn == name + '.__init__' or qn.endswith('.' + name + '.__init__'):
+        out |= set(b.get('params', []))
+    _cache[key] = out
+  return _cache[key]
+
+
 def keywords_to_positional(fnode, bsrc, stats):
   """f(a, k=v) -> f(a, v): a keyword argument becomes positional again when the reference function calls the same callee without that keyword
   and every definition of that name in the package has the parameter at the same position (all positions before it are filled)."""
@@ -2360,8 +2373,8 @@ def keywords_to_positional(fnode, bsrc, stats):
       kw = [k for k in c.keywords if k.arg == pn]
       if not kw or pn in base_kw.get(nm, set()):
         break
-      if base_kw.get(nm) and pos >= base_maxpos.get(nm, 0):
-        break       # the reference passes keywords to this callee and never fills this position: the keyword may be its (renamed) keyword
+      if base_kw.get(nm) and pn not in _reference_params(nm):
+        break       # the reference passes keywords to this callee and knows no parameter of this name: it may be a renamed keyword of the reference
       # evaluation order: keywords are evaluated in call order; moving the FIRST keyword to the end of the positionals keeps it
       if c.keywords[0] is not kw[0]:
         if not all(_is_pure(k.value) for k in c.keywords[:c.keywords.index(kw[0]) + 1]):
